@@ -28,6 +28,13 @@ Definition pout2_eqb (a b : pout2) : bool :=
   match o1, o2 with Some x, Some y => obs_eqb x y | None, None => true | _, _ => false end &&
   list_eqb opres2_eqb l1 l2.
 
+(* pin-level correspondence without the init log (see Corr/Draw.v corr_ops) *)
+Definition pout2_ops_eqb (a b : pout2) : bool :=
+  let '(r1, _, o1, l1) := a in let '(r2, _, o2, l2) := b in
+  res_beq r1 r2 &&
+  match o1, o2 with Some x, Some y => obs_eqb x y | None, None => true | _, _ => false end &&
+  list_eqb opres2_eqb l1 l2.
+
 Definition tstate_of (pc : pcase) (m : model_def) : tstate :=
   let n := match m_color m with CRgb565 => 2 | CRgb666 => 3 end in
   if pc_iface pc =? 3 then TSpi n (repeat 165 (Z.to_nat (pc_ifparam pc)))
